@@ -359,6 +359,45 @@ func runC03(c *Ctx) {
 		c.Check("I4-positional", fnName(f)+"#calls-the-host-function", k > 0, f.Pos(), "%s makes %d reflect call(s) of the host function", fnName(f), k)
 	}
 	c.Min("I4-positional", 7)
+	// an argument is handed on as it was read: Arg.Evaluate returns the value of the one evaluation that
+	// belongs to the argument's form (the variable through GetValue, a nested node through its Evaluate),
+	// not something derived from it -- a pointer-injected number dereferenced on the way reaches the callee
+	// as a copy, and what the callee writes through it is lost
+	if f := c.MustFn("I4-positional", "internal/base", "Arg", "Evaluate"); f != nil {
+		x := c.Index(f)
+		bad, badPos, n := "", f.Pos(), 0
+		eachInstr(f, func(in ssa.Instruction) {
+			r, isRet := in.(*ssa.Return)
+			if !isRet || len(r.Results) != 2 || bad != "" {
+				return
+			}
+			for _, pv := range x.ValuesAt(r.Results[0], r) {
+				if pv.V == nil {
+					continue
+				}
+				o := x.Origin(pv.V)
+				if ex, isEx := o.(*ssa.Extract); isEx && ex.Index == 0 {
+					if call, isCall := ex.Tuple.(*ssa.Call); isCall {
+						if calleeIs(call, pContext, "DataContext", "GetValue") {
+							n++
+							continue
+						}
+						if cal := call.Call.StaticCallee(); cal != nil && cal.Name() == "Evaluate" && cal.Pkg != nil && cal.Pkg.Pkg.Path() == pBase {
+							n++
+							continue
+						}
+					}
+				}
+				if call, isCall := o.(*ssa.Call); isCall && fnIs(call.Call.StaticCallee(), "reflect", "", "ValueOf") {
+					if cc, isC := x.Unwrap(call.Call.Args[0]).(*ssa.Const); isC && cc.Value == nil {
+						continue // no value, with an error
+					}
+				}
+				bad, badPos = x.Describe(o), r.Pos()
+			}
+		})
+		c.Check("I4-positional", "Arg.Evaluate#value-as-read", bad == "" && n >= 7, badPos, "an argument must be the value its evaluation yielded, unchanged (%d pass-through returns found): %s", n, orStr(bad, "ok"))
+	}
 	// ---- I6: the element addressed is the one named by the key, the value stored is the one assigned
 	c.ruleI6("I6-key-and-value-reach-access")
 	c.ruleI7("I7-dotted-name-plumbing")
